@@ -41,8 +41,8 @@ MODEL = dict(
         _known(_mc("generic", "code", name="generic_code", depth=7, every=8, tdepth=9, tevery=40)),
         # the example as its comments and the library's README describe it (the chief manages operators and limits,
         # operators mint within their limit and claw back): no monitor fails
-        _mc("generic", "intended", every=40),
-        _mc("wrapper", depth=6, every=25),
+        _mc("generic", "intended", every=40, tdepth=7, tevery=400),
+        _mc("wrapper", depth=6, every=25, tdepth=8, tevery=60),
         # vacuity guards: seeded model bugs that the monitors must see
         _mc("generic", "intended", "limit_single", depth=4), _mc("generic", "intended", "remove_keeps", depth=4),
         _mc("generic", "intended", "badsig_ok", depth=4), _mc("generic", "intended", "role_any_key", depth=4),
